@@ -132,9 +132,32 @@ func genHistory(t *simrt.Tape, cfg histCfg) *History {
 				kind = "nested" // a process inside an earlier ssh session gets a session of its own (su, sudo -i): LOGIN record with old-ses, no ssh login
 			}
 		}
+		if si > 0 && t.Choose(6, "pid.alias") == 5 {
+			// PIDs that agree in their low byte (4000 and 4256, 4768): still different processes
+			pid = w.Sessions[t.Choose(si, "pid.alias.of")].PID + 256*(1+t.Choose(3, "pid.alias.k"))
+			for clash := true; clash; {
+				clash = false
+				for _, o := range w.Sessions {
+					if o.PID == pid {
+						pid += 256
+						clash = true
+					}
+				}
+			}
+		}
 		s := &Session{Ses: ses, PID: pid, UID: 1000 + si, Kind: kind}
 		if kind == "ssh" || kind == "login-only" || kind == "orphan-with-login" || kind == "unset-with-login" {
 			s.Login = GenLogin(t, pid, si+1)
+			if s.Login.Form == "cert" && t.Choose(4, "cert.reissued") == 3 {
+				// a re-issued (short-lived) certificate for the same key, signed by the same CA: same
+				// fingerprints as an earlier login, another key id and serial
+				for _, o := range w.Sessions {
+					if o.Login != nil && o.Login.Form == "cert" {
+						s.Login.Alg, s.Login.FP, s.Login.CAFP = o.Login.Alg, o.Login.FP, o.Login.CAFP
+						break
+					}
+				}
+			}
 		}
 		// events are generated later in merged order so that kernel sequence numbers and
 		// timestamps increase along the audit stream
